@@ -3,6 +3,8 @@ package rules
 import (
 	"fmt"
 	"go/token"
+	"go/types"
+	"sort"
 	"strings"
 
 	"verifchk/internal/an"
@@ -23,6 +25,8 @@ func runC15(c *an.Ctx) {
 	r15c(c)
 	r15d(c)
 	r15e(c)
+	r15f(c)
+	r15g(c)
 }
 
 var c15Funcs = []struct{ pkg, name, role string }{
@@ -181,6 +185,36 @@ func r15c(c *an.Ctx) {
 						}
 						visit(x.Call.Args[0], depth+1)
 					}
+					// slices.DeleteFunc(list, func(r Role) bool { return !r.IsEnabled() })
+					if n := an.CalleeName(&x.Call); strings.HasPrefix(n, "slices.DeleteFunc") && len(x.Call.Args) == 2 {
+						var pred *ssa.Function
+						switch p := x.Call.Args[1].(type) {
+						case *ssa.Function:
+							pred = p
+						case *ssa.MakeClosure:
+							pred, _ = p.Fn.(*ssa.Function)
+						}
+						if pred != nil {
+							all, cnt := true, 0
+							for _, r := range an.Returns(pred) {
+								cnt++
+								ok := false
+								if len(r.Results) == 1 {
+									if u, isU := r.Results[0].(*ssa.UnOp); isU && u.Op == token.NOT {
+										if call, isCall := u.X.(*ssa.Call); isCall && an.MethodName(&call.Call) == "IsEnabled" {
+											ok = true
+										}
+									}
+								}
+								if !ok {
+									all = false
+								}
+							}
+							if all && cnt > 0 {
+								guarded = true
+							}
+						}
+					}
 				}
 			}
 			visit(st.Val, 0)
@@ -280,8 +314,32 @@ func r15c(c *an.Ctx) {
 					}
 				}
 			}
+			// ... and on nothing else: once the children are filtered, "no child left" alone decides
+			var last ssa.Instruction
+			for _, rs := range rolesStores(fn) {
+				if an.CanReach(rs, st) && (last == nil || an.CanReach(last, rs)) {
+					last = rs
+				}
+			}
+			for _, g := range an.ControlConds(st.Block()) {
+				if g.LoopHeader || g.LoopExit || last == nil || !an.Dominates(last, g.If) {
+					continue
+				}
+				for _, a := range an.CondAtoms(g.V, g.Val) {
+					okAtom := false
+					if call, isCall := a.X.(*ssa.Call); isCall && a.Y != nil && an.CalleeName(&call.Call) == "builtin.len" && len(call.Call.Args) == 1 {
+						// the number of children left: len(r.Roles), or len of the very list that was just stored there
+						if isFieldNamed(call.Call.Args[0], "Roles") || call.Call.Args[0] == last.(*ssa.Store).Val {
+							okAtom = true
+						}
+					}
+					if !okAtom {
+						selfDisable = false
+					}
+				}
+			}
 		})
-		c.Ob(role+"|empty-aggregator-disabled", fn.Pos(), selfDisable, "an aggregator left without children sets Enabled=\"false\" (so its parent filters it out)")
+		c.Ob(role+"|empty-aggregator-disabled", fn.Pos(), selfDisable, "an aggregator left without children sets Enabled=\"false\" (so its parent filters it out), and whether it does depends on nothing but the number of children left")
 	}
 	// stage-0 callback
 	if fn := c.MustFn("core/workflow", "MakeDisabledRoleCallback"); fn != nil && len(fn.AnonFuncs) == 1 {
@@ -550,4 +608,114 @@ func copiedMembers(c *an.Ctx, fnName string, fields []string) {
 func isCopyMethod(cc *ssa.CallCommon) bool {
 	n := an.MethodName(cc)
 	return n == "copy" || n == "Copy"
+}
+
+// errAborts: the error result of call is tested, and from the non-nil side of every such test all paths return
+// without overwriting the variable holding the error and without coming back to the call (no `continue`).
+func errAborts(call *ssa.Call) bool {
+	ev := errResult(call)
+	if ev == nil {
+		return false
+	}
+	avoid := []ssa.Instruction{call}
+	if ev.Referrers() != nil {
+		for _, r := range *ev.Referrers() {
+			if st, ok := r.(*ssa.Store); ok && st.Val == ev {
+				if cell, isAl := st.Addr.(*ssa.Alloc); isAl && cell.Referrers() != nil {
+					for _, rr := range *cell.Referrers() {
+						if st2, isSt := rr.(*ssa.Store); isSt && st2.Addr == ssa.Value(cell) {
+							avoid = append(avoid, st2)
+						}
+					}
+				}
+			}
+		}
+	}
+	tests := an.ErrTests(ev)
+	if len(tests) == 0 {
+		return false
+	}
+	for _, t := range tests {
+		if !an.AllPathsReturnAvoiding(t.NonNilSucc, avoid) {
+			return false
+		}
+	}
+	return true
+}
+
+// R15f: "a template error fails the load": in the template engine's field loop an expression that cannot be parsed or
+// evaluated ends the evaluation with that error - it is not skipped.
+func r15f(c *an.Ctx) {
+	c.Rule("R15f", "template.Fields.Execute: a parse or evaluation error of a field is returned, the field is not skipped", 2)
+	fn := c.MustFn("configuration/template", "Fields.Execute")
+	if fn == nil {
+		return
+	}
+	n := 0
+	for _, ci := range an.Calls(fn, func(nm string, _ ssa.CallInstruction) bool {
+		return strings.Contains(nm, "fasttemplate.NewTemplate") || strings.Contains(nm, "fasttemplate.Template).Execute")
+	}) {
+		call, ok := ci.(*ssa.Call)
+		if !ok {
+			continue
+		}
+		n++
+		c.Subject()
+		nm := an.CalleeName(&call.Call)
+		nm = nm[strings.LastIndex(nm, ".")+1:]
+		c.Ob(fmt.Sprintf("configuration/template.Fields.Execute|%s#%d|error-ends-evaluation", nm, n), call.Pos(), errAborts(call),
+			"a failure of %s does not end Execute with that error on every path (the error is overwritten, or the loop goes on to the next field): a workflow with an invalid template expression loads, with the expression left unexpanded", nm)
+	}
+	if n == 0 {
+		c.Lost("fasttemplate.NewTemplate / Template.Execute* in template.Fields.Execute")
+	}
+}
+
+// R15g: an include role becomes the root of the workflow it includes: after its base was replaced by the included root
+// only its place in the tree (parent, name) is restored. The included root's own declarations - its enabled expression
+// first of all - must survive, or a sub-workflow that disables itself is kept with its whole subtree.
+func r15g(c *an.Ctx) {
+	c.Rule("R15g", "includeRole.ProcessTemplates: after the base is replaced by the included root only parent and Name are restored", 1)
+	fn := c.MustFn("core/workflow", "includeRole.ProcessTemplates")
+	if fn == nil {
+		return
+	}
+	var replace *ssa.Store
+	an.Instrs(fn, func(in ssa.Instruction) {
+		if st, ok := in.(*ssa.Store); ok {
+			if fa, isFA := st.Addr.(*ssa.FieldAddr); isFA && isFieldNamed(fa, "aggregatorRole") {
+				if _, isStruct := st.Val.Type().Underlying().(*types.Struct); isStruct {
+					replace = st
+				}
+			}
+		}
+	})
+	if replace == nil {
+		c.Lost("the replacement of the embedded aggregatorRole in includeRole.ProcessTemplates")
+		return
+	}
+	c.Subject()
+	declared := map[string]bool{"Enabled": true, "Roles": true, "Defaults": true, "Vars": true, "UserVars": true, "Bind": true, "Connect": true, "Constraints": true}
+	var bad []string
+	an.Instrs(fn, func(in ssa.Instruction) {
+		st, ok := in.(*ssa.Store)
+		if !ok || st == replace || !an.CanReach(replace, st) {
+			return
+		}
+		if f := an.FieldOf(st.Addr); f != nil && declared[f.Name()] {
+			// a store into the receiver's own (embedded) role
+			root := st.Addr
+			for i := 0; i < 6; i++ {
+				if fa, isFA := root.(*ssa.FieldAddr); isFA {
+					root = fa.X
+				}
+			}
+			if root == ssa.Value(fn.Params[0]) {
+				bad = append(bad, f.Name()+" at "+c.PosStr(st.Pos()))
+			}
+		}
+	})
+	sort.Strings(bad)
+	c.Ob("(*core/workflow.includeRole).ProcessTemplates|only-place-restored", replace.Pos(), len(bad) == 0,
+		"after the include role's base was replaced by the included workflow's root, declarations of that root are overwritten (%v): e.g. with Enabled restored from the include role, a sub-workflow whose own enabled expression evaluates to false is kept with its subtree", bad)
 }
